@@ -22,7 +22,27 @@ return, and calls of a fixed list of procedures without influence on the result 
 _set_y_X, _set_fh).  Expressions: see `Ev.expr`; arrays are `list oq` (NaN = None), the primitive
 numpy operations are the `np_*` / `sq_*` definitions of coq/C11/Model.v.  Everything else raises
 `Unsupported`.
+
+Invariance under harmless rewrites (translation is by data flow, not by text or position):
+  * assignments to locals are SUBSTITUTED (no `let`), so temporaries introduced, inlined or renamed,
+    a repeated sub-expression computed once, and reordered independent assignments give the same term;
+    tuple assignments `a, b = x, y` are simultaneous substitutions;
+  * `if c: return a` followed by the rest is the same term as `if c: return a else: rest` (the
+    continuation is pushed into both branches); conditional expressions `a if c else b` are
+    translated for every value kind;
+  * calls of private helpers - `self._helper(...)` methods (also @staticmethod) of the same class and
+    module-level functions of the same file - are INLINED with argument binding (positional,
+    keyword, defaults), any depth without recursion; the helper body must itself be in the supported
+    subset; assignments to `self.<attr>` inside a helper are threaded back to the caller;
+  * a `res`-valued sub-expression (reshape, indexing) nested inside another expression is bound
+    first (not allowed where evaluation is conditional: branches of `a if c else b`, later operands
+    of and/or);
+  * `match r with Err => Err | Ok x => Ok x end` is emitted as `r`.
+The Bridge proofs (coq/C11/Bridge.v) are semantic: they case-split on every boolean test of both
+sides and close the leaves by `lia` / congruence, so a differently nested but equivalent term
+still proves.
 """
+import copy
 import ast
 import os
 
@@ -98,9 +118,33 @@ def Z(coq):
 
 
 class Ev:
-    def __init__(self, skip_calls=()):
+    def __init__(self, skip_calls=(), cls=None, mod=None):
         self.skip_calls = set(skip_calls)
         self.counter = 0
+        self.pending = []          # (fresh name, res-valued coq term) to bind before the statement
+        self.cond_depth = 0        # > 0 while evaluating something evaluated only conditionally
+        self.depth = 0             # helper inlining depth
+        self.helpers = {}
+        if cls is not None:
+            for n in cls.body:
+                if isinstance(n, ast.FunctionDef):
+                    decos = [_u(d) for d in n.decorator_list]
+                    _need(set(decos) <= {"staticmethod"}, "decorator of %s" % n.name)
+                    self.helpers["self." + n.name] = (n, "staticmethod" in decos, True)
+        if mod is not None:
+            for n in mod.body:
+                if isinstance(n, ast.FunctionDef) and not n.decorator_list:
+                    self.helpers[n.name] = (n, True, False)
+
+    def arg(self, e, env):
+        """value of a sub-expression in operand position: a res-valued one is bound first"""
+        v = self.expr(e, env)
+        if v.kind in ("RZ", "RA", "RT"):
+            _need(self.cond_depth == 0, "a sub-expression that may raise is evaluated conditionally", e)
+            x = self.fresh("r")
+            self.pending.append((x, v.coq))
+            return V(v.kind[1:], x)
+        return v
 
     def fresh(self, base):
         self.counter += 1
@@ -128,7 +172,7 @@ class Ev:
                 return V("S", "(None : oq)")
             raise Unsupported("unbound %s" % u)
         if isinstance(e, ast.UnaryOp):
-            v = self.expr(e.operand, env)
+            v = self.arg(e.operand, env)
             if isinstance(e.op, ast.Not):
                 _need(v.kind == "B", "not on non-bool", e)
                 return B(static=not v.static) if v.is_static_bool() else B(coq="(negb %s)" % v.coq)
@@ -138,8 +182,12 @@ class Ev:
         if isinstance(e, ast.BoolOp):
             is_and = isinstance(e.op, ast.And)
             parts = []
-            for sub in e.values:            # left to right, short-circuit on static values
-                v = self.expr(sub, env)
+            for i_, sub in enumerate(e.values):   # left to right, short-circuit on static values
+                self.cond_depth += 1 if i_ else 0
+                try:
+                    v = self.arg(sub, env)
+                finally:
+                    self.cond_depth -= 1 if i_ else 0
                 _need(v.kind == "B", "bool operand", sub)
                 if v.is_static_bool():
                     if v.static != is_and:  # False in `and` / True in `or` decides
@@ -157,18 +205,25 @@ class Ev:
             return B(coq="(" + (" && " if is_and else " || ").join(parts) + ")")
         if isinstance(e, ast.Compare):
             _need(len(e.ops) == 1, "chained comparison", e)
-            return self.compare(e.ops[0], self.expr(e.left, env), self.expr(e.comparators[0], env), e)
+            return self.compare(e.ops[0], self.arg(e.left, env), self.arg(e.comparators[0], env), e)
         if isinstance(e, (ast.Tuple, ast.List)) and e.elts and all(
                 isinstance(x, ast.Constant) and isinstance(x.value, str) for x in e.elts):
             return V("STR", static="<text>")       # a tuple of names for a message
         if isinstance(e, ast.IfExp):
-            t = self.expr(e.test, env)
+            t = self.arg(e.test, env)
             _need(t.kind == "B", "conditional expression test", e)
             if t.is_static_bool():
-                return self.expr(e.body if t.static else e.orelse, env)
-            a, b = self.expr(e.body, env), self.expr(e.orelse, env)
-            _need(a.kind == "STR" and b.kind == "STR", "conditional expression (only between strings)", e)
-            return V("STR", static="<text>")       # a message text: never compared
+                return self.arg(e.body if t.static else e.orelse, env)
+            self.cond_depth += 1
+            try:
+                a, b = self.arg(e.body, env), self.arg(e.orelse, env)
+            finally:
+                self.cond_depth -= 1
+            if a.kind == "STR" and b.kind == "STR":
+                return V("STR", static="<text>")   # a message text: never compared
+            _need(a.kind == b.kind and a.kind in ("Z", "B", "S", "A", "I"),
+                  "conditional expression between %s and %s" % (a.kind, b.kind), e)
+            return V(a.kind, "(if %s then %s else %s)" % (t.coq, a.coq, b.coq))
         if isinstance(e, ast.BinOp):
             return self.binop(e, env)
         if isinstance(e, ast.Subscript):
@@ -199,7 +254,7 @@ class Ev:
         return B(coq="(%s %s %s)" % (a.coq, sym, b.coq))
 
     def binop(self, e, env):
-        a, b = self.expr(e.left, env), self.expr(e.right, env)
+        a, b = self.arg(e.left, env), self.arg(e.right, env)
         k = (type(e.op), a.kind, b.kind)
         if a.kind == "Z" and b.kind == "Z":
             if type(e.op) in (ast.Add, ast.Sub, ast.Mult):
@@ -222,7 +277,7 @@ class Ev:
         raise Unsupported("binary operation on %s %s: %s" % (a.kind, b.kind, _u(e)))
 
     def subscript(self, e, env):
-        a = self.expr(e.value, env)
+        a = self.arg(e.value, env)
         s = e.slice
         if a.kind == "A":
             if _u(s) == "-1":
@@ -231,7 +286,7 @@ class Ev:
                 return V("S", "(np_first %s)" % a.coq)
             if isinstance(s, ast.List) and [_u(x) for x in s.elts] == ["0", "-1"]:
                 return V("A", "[np_first %s; np_last %s]" % (a.coq, a.coq))
-            i = self.expr(s, env)
+            i = self.arg(s, env)
             if i.kind == "I":
                 return V("RA", "(np_index %s %s)" % (a.coq, i.coq))
         if a.kind == "FH" and _u(s) == "-1":
@@ -248,7 +303,7 @@ class Ev:
 
         if f == "len":
             only(1)
-            a = self.expr(args[0], env)
+            a = self.arg(args[0], env)
             if a.kind in ("A", "FH"):
                 return Z("(zlen %s)" % a.coq)
             if a.kind == "Y":
@@ -259,17 +314,17 @@ class Ev:
             inner = args[0]
             _need(isinstance(inner, ast.Call) and _u(inner.func) == "np.isnan" and len(inner.args) == 1
                   and not inner.keywords, "%s(np.isnan(<array>)) expected" % f, e)
-            a = self.expr(inner.args[0], env)
+            a = self.arg(inner.args[0], env)
             _need(a.kind == "A", "np.isnan of %s" % a.kind, e)
             return B(coq="(%s %s)" % ("np_all_isnan" if f == "np.all" else "np_any_isnan", a.coq))
         if f == "np.repeat":
             only(2)
-            x, n = self.expr(args[0], env), self.expr(args[1], env)
+            x, n = self.arg(args[0], env), self.arg(args[1], env)
             _need(x.kind == "S" and n.kind == "Z", "np.repeat(scalar, int)", e)
             return V("A", "(np_repeat %s %s)" % (x.coq, n.coq))
         if f == "np.nanmean":
             only(1, ("axis",))
-            a = self.expr(args[0], env)
+            a = self.arg(args[0], env)
             if a.kind == "A" and not kw:
                 return V("S", "(nanmean %s)" % a.coq)
             if a.kind == "T" and _u(kw.get("axis", ast.Constant(None))) == "0":
@@ -277,19 +332,19 @@ class Ev:
             raise Unsupported("np.nanmean on %s with %s" % (a.kind, sorted(kw)))
         if f == "np.full":
             only(2)
-            n, x = self.expr(args[0], env), self.expr(args[1], env)
+            n, x = self.arg(args[0], env), self.arg(args[1], env)
             _need(n.kind == "Z" and x.kind == "S" and _u(args[1]) == "np.nan", "np.full(int, np.nan)", e)
             return V("A", "(np_full_nan %s)" % n.coq)
         if f == "np.hstack":
             only(1)
             _need(isinstance(args[0], ast.List) and len(args[0].elts) == 2, "np.hstack([a, b])", e)
-            a, b = (self.expr(x, env) for x in args[0].elts)
+            a, b = (self.arg(x, env) for x in args[0].elts)
             _need(a.kind == "A" and b.kind == "A", "np.hstack of arrays", e)
             return V("A", "(np_hstack %s %s)" % (a.coq, b.coq))
         if f == "np.tile":
             _need(len(args) + len(kw) == 2 and len(args) >= 1 and set(kw) <= {"reps"}, "np.tile(a, reps)", e)
-            a = self.expr(args[0], env)
-            r = self.expr(args[1] if len(args) == 2 else kw["reps"], env)
+            a = self.arg(args[0], env)
+            r = self.arg(args[1] if len(args) == 2 else kw["reps"], env)
             _need(a.kind == "A" and r.kind == "Z", "np.tile(array, int)", e)
             return V("A", "(np_tile %s %s)" % (a.coq, r.coq))
         if f in ("np.int", "int"):
@@ -298,23 +353,23 @@ class Ev:
             _need(isinstance(c, ast.Call) and _u(c.func) in ("np.ceil", "math.ceil") and len(c.args) == 1
                   and not c.keywords and isinstance(c.args[0], ast.BinOp)
                   and isinstance(c.args[0].op, ast.Div), "int(ceil(a / b)) expected", e)
-            a, b = self.expr(c.args[0].left, env), self.expr(c.args[0].right, env)
+            a, b = self.arg(c.args[0].left, env), self.arg(c.args[0].right, env)
             _need(a.kind == "Z" and b.kind == "Z", "ceil of an integer quotient", e)
             return Z("(np_ceil_div %s %s)" % (a.coq, b.coq))
         if isinstance(e.func, ast.Attribute) and e.func.attr == "reshape":
-            a = self.expr(e.func.value, env)
+            a = self.arg(e.func.value, env)
             only(2)
             _need(a.kind == "A" and _u(args[0]) == "-1", "<array>.reshape(-1, cols)", e)
-            c = self.expr(args[1], env)
+            c = self.arg(args[1], env)
             _need(c.kind == "Z", "reshape columns", e)
             return V("RT", "(np_reshape_cols %s %s)" % (a.coq, c.coq))
         if f == "self._predict_nan":
             only(1)
-            h = self.expr(args[0], env)
+            h = self.arg(args[0], env)
             _need(h.kind == "FH", "_predict_nan(fh)", e)
             return V("A", "(gen_predict_nan (zlen %s))" % h.coq)
         if isinstance(e.func, ast.Attribute) and e.func.attr in ("to_indexer", "to_relative"):
-            h = self.expr(e.func.value, env)
+            h = self.arg(e.func.value, env)
             only(1)
             _need(h.kind == "FH" and _u(args[0]) == "self.cutoff", "fh.%s(self.cutoff)" % e.func.attr, e)
             if e.func.attr == "to_relative":
@@ -322,12 +377,12 @@ class Ev:
             return V("I", "(map gen_fh_indexer %s)" % h.coq)
         if f == "check_sp":
             only(1)
-            a = self.expr(args[0], env)
+            a = self.arg(args[0], env)
             _need(a.kind == "Z", "check_sp(<int>)", e)
             return V("RZ", "(gen_check_sp %s)" % a.coq)
         if f == "check_window_length":
             only(1)
-            a = self.expr(args[0], env)
+            a = self.arg(args[0], env)
             if a.kind == "NONE":
                 _need(env.get("@cwl_none_ok"), "check_window_length(None) not known to return None")
                 return a
@@ -335,59 +390,205 @@ class Ev:
             return V("RZ", "(gen_check_window_length %s)" % a.coq)
         if f == "is_int":
             only(1)
-            a = self.expr(args[0], env)
+            a = self.arg(args[0], env)
             _need(a.kind == "Z", "is_int of %s" % a.kind, e)
             return B(static=True)
         if f == "isinstance":
             only(2)
-            a = self.expr(args[0], env)
+            a = self.arg(args[0], env)
             _need(a.kind == "Z" and _u(args[1]) == "list", "isinstance(<int>, list)", e)
             return B(static=False)
         raise Unsupported("call %s" % _u(e))
 
+    # ---- helper calls --------------------------------------------------------------------------
+    def is_helper_call(self, n):
+        return isinstance(n, ast.Call) and _u(n.func) in self.helpers
+
+    def first_helper_call(self, e, conditional=False):
+        """the helper call evaluated first in e (post-order, left to right), or None"""
+        if isinstance(e, ast.IfExp):
+            kids = [(e.test, conditional), (e.body, True), (e.orelse, True)]
+        elif isinstance(e, ast.BoolOp):
+            kids = [(v, conditional or i > 0) for i, v in enumerate(e.values)]
+        else:
+            kids = [(k, conditional) for k in ast.iter_child_nodes(e) if isinstance(k, ast.expr)]
+            for k in ast.iter_child_nodes(e):
+                if isinstance(k, ast.keyword):
+                    kids.append((k.value, conditional))
+        for k, c in kids:
+            h = self.first_helper_call(k, c)
+            if h is not None:
+                return h
+        if self.is_helper_call(e):
+            _need(not conditional, "a helper is called where evaluation is conditional", e)
+            return e
+        return None
+
+    def inline(self, call, env, k):
+        """run the helper's body with its parameters bound; k(value, self-attributes it set)"""
+        fn, static, is_method = self.helpers[_u(call.func)]
+        params = argnames(fn)
+        if is_method and not static:
+            _need(params and params[0] == "self", "first parameter of %s" % fn.name)
+            params = params[1:]
+        _need(len(call.args) <= len(params) and not any(isinstance(a, ast.Starred) for a in call.args),
+              "arguments of %s" % fn.name, call)
+        cenv = {key: v for key, v in env.items() if key.startswith("self.") or key.startswith("@")
+                or key == "self"}
+        bound = {}
+        for p, a in zip(params, call.args):
+            bound[p] = self.arg(a, env)
+        for kw in call.keywords:
+            _need(kw.arg in params and kw.arg not in bound, "keyword %s of %s" % (kw.arg, fn.name), call)
+            bound[kw.arg] = self.arg(kw.value, env)
+        defaults = fn.args.defaults
+        for p, d in zip(params[len(params) - len(defaults):], defaults):
+            if p not in bound:
+                bound[p] = self.expr(d, {})
+        _need(set(bound) == set(params), "missing arguments of %s" % fn.name, call)
+        cenv.update(bound)
+        _need(self.depth < 8, "helper calls nested too deeply (recursion?)", call)
+        self.depth += 1
+        try:
+            def upd(e2):
+                return {key: v for key, v in e2.items() if key.startswith("self.")}
+            return self.run(body_of(fn), cenv, lambda v, e2: k(v, upd(e2)),
+                            lambda e2: k(V("NONE"), upd(e2)))
+        finally:
+            self.depth -= 1
+
+    @staticmethod
+    def replace_node(root, target, new):
+        class R(ast.NodeTransformer):
+            def visit(self, node):
+                if node is target:
+                    return new
+                return self.generic_visit(node)
+        # shallow-copy the path: generic_visit mutates in place, so work on a deep copy that keeps
+        # the identity of `target` via a marker
+        target._marker = True
+        dup = copy.deepcopy(root)
+        del target._marker
+        for n in ast.walk(dup):
+            if getattr(n, "_marker", False):
+                tgt = n
+                break
+        else:
+            raise Unsupported("internal: helper call not found")
+
+        class R2(ast.NodeTransformer):
+            def visit(self, node):
+                if node is tgt:
+                    return new
+                return self.generic_visit(node)
+        return R2().visit(dup)
+
+    def wrap(self, binds, body):
+        for x, term in reversed(binds):
+            if body == "(Ok %s)" % x:
+                body = term                     # match r with Err => Err | Ok x => Ok x end  =  r
+            else:
+                body = "(match %s with Err => Err | Ok %s => %s end)" % (term, x, body)
+        return body
+
+    def evaluated(self, e, env, top=True):
+        """(value, binds) of an expression root of a statement"""
+        saved, self.pending = self.pending, []
+        try:
+            v = self.expr(e, env) if top else self.arg(e, env)
+            return v, self.pending
+        finally:
+            self.pending = saved
+
     # ---- statements (continuation passing; result: coq term of type `res <R>`) --------------------
     def run(self, stmts, env, kret, kend):
+        """kret(value, env) / kend(env): what to do at `return value` / at the end of the list"""
         if not stmts:
             return kend(env)
         st, rest = stmts[0], stmts[1:]
         if isinstance(st, ast.Pass) or (isinstance(st, ast.Expr) and isinstance(st.value, ast.Constant)
                                         and isinstance(st.value.value, str)):
             return self.run(rest, env, kret, kend)
-        if isinstance(st, ast.Expr) and isinstance(st.value, ast.Call):
-            _need(_u(st.value.func) in self.skip_calls, "call statement", st)
+        if isinstance(st, ast.Expr) and isinstance(st.value, ast.Call) and _u(st.value.func) in self.skip_calls:
             return self.run(rest, env, kret, kend)
         if isinstance(st, ast.Raise):
             _need(isinstance(st.exc, ast.Call) and _u(st.exc.func) == "ValueError" and st.cause is None,
                   "raise ValueError(...) expected", st)
             return "Err"
+        # helper calls in the statement's own expressions are inlined first, innermost first
+        roots = []
+        if isinstance(st, (ast.Return, ast.Assign)) and st.value is not None:
+            roots = [st.value]
+        elif isinstance(st, ast.If):
+            roots = [st.test]
+        elif isinstance(st, ast.Expr):
+            roots = [st.value]
+        for r in roots:
+            h = self.first_helper_call(r)
+            if h is not None:
+                tmp = "@h%d" % (self.counter + 1)
+                self.counter += 1
+                if isinstance(st, ast.If):
+                    new_st = ast.If(test=self.replace_node(st.test, h, ast.Name(id=tmp, ctx=ast.Load())),
+                                    body=st.body, orelse=st.orelse)
+                else:
+                    new_st = copy.copy(st)
+                    new_st.value = self.replace_node(st.value, h, ast.Name(id=tmp, ctx=ast.Load()))
+
+                def k(v, selfattrs, tmp=tmp, new_st=new_st):
+                    env2 = dict(env)
+                    env2.update(selfattrs)
+                    env2[tmp] = v
+                    if v.kind in ("RZ", "RA", "RT"):
+                        x = self.fresh("r")
+                        env2[tmp] = V(v.kind[1:], x)
+                        return self.wrap([(x, v.coq)], self.run([new_st] + rest, env2, kret, kend))
+                    return self.run([new_st] + rest, env2, kret, kend)
+                saved, self.pending = self.pending, []
+                try:
+                    body = self.inline(h, env, k)
+                    binds = self.pending
+                finally:
+                    self.pending = saved
+                return self.wrap(binds, body)
+        if isinstance(st, ast.Expr):
+            # a helper called for its effect on self.<attr> only: its value is dropped
+            _need(isinstance(st.value, ast.Name) and st.value.id.startswith("@h"), "expression statement", st)
+            return self.run(rest, env, kret, kend)
         if isinstance(st, ast.Return):
-            _need(st.value is not None, "bare return", st)
-            return kret(st.value, env)
+            if st.value is None:
+                return kret(V("NONE"), env)
+            v, binds = self.evaluated(st.value, env)
+            return self.wrap(binds, kret(v, env))
         if isinstance(st, ast.If):
-            t = self.expr(st.test, env)
+            t, binds = self.evaluated(st.test, env, top=False)
             _need(t.kind == "B", "if test", st)
             if t.is_static_bool():
-                return self.run((st.body if t.static else st.orelse) + rest, env, kret, kend)
-            return "(if %s then %s else %s)" % (t.coq, self.run(st.body + rest, env, kret, kend),
-                                               self.run(st.orelse + rest, env, kret, kend))
+                return self.wrap(binds, self.run((st.body if t.static else st.orelse) + rest, env, kret, kend))
+            return self.wrap(binds, "(if %s then %s else %s)" % (
+                t.coq, self.run(st.body + rest, env, kret, kend), self.run(st.orelse + rest, env, kret, kend)))
         if isinstance(st, ast.Assign):
             _need(len(st.targets) == 1, "multiple targets", st)
             tg = st.targets[0]
-            _need(isinstance(tg, ast.Name) or (isinstance(tg, ast.Attribute) and _u(tg.value) == "self"),
-                  "assignment target", st)
-            name = _u(tg)
-            v = self.expr(st.value, env)
-            env = dict(env)
-            if v.kind in ("NONE", "STR") or v.is_static_bool() or v.kind in ("FH", "Y"):
-                env[name] = v
-                return self.run(rest, env, kret, kend)
-            x = self.fresh(name.replace("self.", ""))
-            if v.kind in ("RZ", "RA", "RT"):
-                env[name] = V(v.kind[1:], x)
-                return "(match %s with Err => Err | Ok %s => %s end)" % (
-                    v.coq, x, self.run(rest, env, kret, kend))
-            env[name] = V(v.kind, x)
-            return "(let %s := %s in %s)" % (x, v.coq, self.run(rest, env, kret, kend))
+            if isinstance(tg, ast.Tuple):
+                _need(isinstance(st.value, ast.Tuple) and len(st.value.elts) == len(tg.elts)
+                      and all(isinstance(t, ast.Name) for t in tg.elts), "tuple assignment a, b = x, y", st)
+                pairs = list(zip(tg.elts, st.value.elts))
+            else:
+                pairs = [(tg, st.value)]
+            env2 = dict(env)
+            binds = []
+            for t, val in pairs:               # all right-hand sides are evaluated in the OLD env
+                _need(isinstance(t, ast.Name) or (isinstance(t, ast.Attribute) and _u(t.value) == "self"),
+                      "assignment target", st)
+                v, b = self.evaluated(val, env)
+                binds += b
+                if v.kind in ("RZ", "RA", "RT"):
+                    x = self.fresh(_u(t).replace("self.", ""))
+                    binds.append((x, v.coq))
+                    v = V(v.kind[1:], x)
+                env2[_u(t)] = v                # substitution: no `let`
+            return self.wrap(binds, self.run(rest, env2, kret, kend))
         raise Unsupported("statement %s" % _u(st)[:120])
 
 
@@ -413,8 +614,7 @@ def _validator(mod, name, extra_env, coqname):
         env[a] = ev.expr(d, {})
     env.update(extra_env)
 
-    def kret(value, env2):
-        v = ev.expr(value, env2)
+    def kret(v, env2):
         _need(v.kind == "Z", "%s returns a %s" % (name, v.kind))
         return "(Ok %s)" % v.coq
 
@@ -425,8 +625,8 @@ def _validator(mod, name, extra_env, coqname):
     env_none[args[0]] = V("NONE")
     ok = []
 
-    def kret_none(value, env2):
-        ok.append(ev2.expr(value, env2).kind == "NONE")
+    def kret_none(v, env2):
+        ok.append(v.kind == "NONE")
         return "(Ok 0)"
     t = ev2.run(body_of(fn), env_none, kret_none, _no_end(name))
     _need(ok == [True] and t == "(Ok 0)", "%s(None) must return None" % name)
@@ -438,9 +638,15 @@ def _validator(mod, name, extra_env, coqname):
 
 
 STRATS = [("SLast", "last"), ("SMean", "mean"), ("SDrift", "drift")]
+INHERITED_MACHINERY = {
+    "predict", "_predict", "_predict_fixed_cutoff", "_predict_in_sample", "_predict_moving_cutoff",
+    "_get_last_window", "_predict_nan", "update", "update_predict", "update_predict_single",
+    "_update_predict_single", "_update_y_X", "_set_y_X", "_update_X", "_set_fh", "_set_cutoff", "cutoff",
+    "fh", "check_is_fitted", "_detached_cutoff", "_get_y_pred", "__getattr__", "__getattribute__",
+    "__setattr__"}
 
 
-def _naive_fit(cls, out):
+def _naive_fit(cls, mod, out):
     fn = find(cls, "fit")
     _need(argnames(fn) == ["self", "y", "X", "fh"], "NaiveForecaster.fit signature")
     init = find(cls, "__init__")
@@ -454,13 +660,13 @@ def _naive_fit(cls, out):
         for con, sname in STRATS:
             sub = []
             for wl_none in (True, False):
-                ev = Ev(skip_calls=("warn", "self._set_y_X", "self._set_fh"))
+                ev = Ev(skip_calls=("warn", "self._set_y_X", "self._set_fh"), cls=cls, mod=mod)
                 env = {"self.strategy": V("STR", static=sname), "self.sp": Z("sp"),
-                       "self.window_length": V("NONE") if wl_none else Z("w"),
+                       "self.window_length": V("NONE") if wl_none else Z("w"), "self": V("SELF"),
                        "y": V("Y", "n"), "self._y": V("Y", "n"), "@cwl_none_ok": True}
 
                 def kret(value, env2, what=what):
-                    _need(_u(value) == "self", "fit returns self")
+                    _need(value.kind == "SELF", "fit returns self")
                     _need(env2.get("self._is_fitted") is not None and env2["self._is_fitted"].static is True,
                           "fit does not set _is_fitted = True before returning")
                     if what == "wl":
@@ -477,9 +683,9 @@ def _naive_fit(cls, out):
                         % (con, sub[0], sub[1]))
         results[what] = "\n".join(arms)
     # an unknown strategy name is rejected
-    ev = Ev(skip_calls=("warn", "self._set_y_X", "self._set_fh"))
+    ev = Ev(skip_calls=("warn", "self._set_y_X", "self._set_fh"), cls=cls, mod=mod)
     env = {"self.strategy": V("STR", static="<unknown>"), "self.sp": Z("sp"), "self.window_length": V("NONE"),
-           "y": V("Y", "n"), "self._y": V("Y", "n"), "@cwl_none_ok": True}
+           "y": V("Y", "n"), "self._y": V("Y", "n"), "@cwl_none_ok": True, "self": V("SELF")}
     _need(ev.run(body_of(fn), env, lambda v, e: "(Ok 0)", _no_end("fit")) == "Err",
           "fit accepts an unknown strategy name")
     out.append("(* NaiveForecaster.fit: window_length_ after a successful fit, Err = ValueError.  n = len(y). *)\n"
@@ -490,24 +696,32 @@ def _naive_fit(cls, out):
                "  match s with\n%s\n  end.\n" % results["sp"])
 
 
-def _naive_kernel(cls, out):
+def _naive_kernel(cls, mod, out):
     fn = find(cls, "_predict_last_window")
     _need(argnames(fn)[:2] == ["self", "fh"], "_predict_last_window signature")
     b = body_of(fn)
-    _need(len(b) >= 3 and _u(b[0]).replace("(", "").replace(")", "") == "last_window, _ = self._get_last_window",
-          "first statement: last_window, _ = self._get_last_window()", b[0])
+    # the window comes from the inherited _get_last_window: `<name>, <ignored> = self._get_last_window()`
+    st = b[0] if b else None
+    _need(isinstance(st, ast.Assign) and len(st.targets) == 1 and isinstance(st.targets[0], ast.Tuple)
+          and len(st.targets[0].elts) == 2 and all(isinstance(t, ast.Name) for t in st.targets[0].elts)
+          and isinstance(st.value, ast.Call) and _u(st.value.func) == "self._get_last_window"
+          and not st.value.args and not st.value.keywords,
+          "first statement: <window>, <X> = self._get_last_window()", st)
+    wname, xname = (t.id for t in st.targets[0].elts)
+    _need(not any(isinstance(n, ast.Name) and n.id == xname and isinstance(n.ctx, ast.Load)
+                  for n in ast.walk(fn)) or xname == wname, "the window of X is used")
     arms = []
     for con, sname in STRATS:
-        ev = Ev()
+        ev = Ev(cls=cls, mod=mod)
         # self.sp_ = check_sp(self.sp) = self.sp wherever fit sets it (Bridge: bridge_fit_sp)
         env = {"self.strategy": V("STR", static=sname), "self.sp": Z("sp"), "self.sp_": Z("sp"),
-               "last_window": V("A", "w"), "fh": V("FH", "hs"), "self.cutoff": V("STR", static="<cutoff>")}
+               wname: V("A", "w"), "fh": V("FH", "hs"), "self.cutoff": V("STR", static="<cutoff>"),
+               "self": V("SELF")}
 
-        def kret(value, env2, ev=ev):
-            v = ev.expr(value, env2)
+        def kret(v, env2):
             if v.kind == "A":
                 return "(Ok %s)" % v.coq
-            _need(v.kind == "RA", "_predict_last_window returns a %s" % v.kind, value)
+            _need(v.kind == "RA", "_predict_last_window returns a %s" % v.kind)
             return v.coq
         arms.append("  | %s => %s" % (con, ev.run(b[1:], env, kret, _no_end("_predict_last_window"))))
     out.append("(* NaiveForecaster._predict_last_window on the window w (what _get_last_window returned) for the\n"
@@ -521,6 +735,8 @@ def _naive_kernel(cls, out):
 
 
 def _int_expr(e, env):
+    if _u(e) in env:                  # a named sub-expression (e.g. `self.to_pandas()` -> r)
+        return env[_u(e)]
     if isinstance(e, ast.Constant) and isinstance(e.value, int) and not isinstance(e.value, bool):
         return "(%d)" % e.value
     if isinstance(e, (ast.Name, ast.Attribute)):
@@ -548,129 +764,198 @@ def _assign_to(fn, target, what=None):
                    and _u(n.targets[0]) == target, what or ("assignment to " + target)).value
 
 
+# ---- pins by data flow: canonical decision trees (translator/canon_c11.py) -------------------------
+
+DATETIME_TYPES = ("pd.Timestamp", "pd.DatetimeIndex", "pd.PeriodIndex", "pd.Period")
+
+
+def _integer_time(test):
+    """decision of a test on an INTEGER time index / cutoff: isinstance(x, <datetime types>) is False"""
+    t = _u(test)
+    if isinstance(test, ast.BoolOp) and isinstance(test.op, ast.And):
+        if any(_integer_time(v) is False for v in test.values):
+            return False
+    if isinstance(test, ast.Call) and _u(test.func) == "isinstance" and len(test.args) == 2:
+        types = test.args[1].elts if isinstance(test.args[1], ast.Tuple) else [test.args[1]]
+        if all(_u(x) in DATETIME_TYPES for x in types):
+            return False
+    return None
+
+
+def select(t, decide, what):
+    """walk the canonical tree along the decided tests; returns (effects on the way, leaf)"""
+    from . import canon_c11 as C
+    effs = []
+    while True:
+        if t[0] == "IF":
+            d = decide(t[1])
+            _need(d is not None, "%s: cannot decide the test" % what, t[1])
+            t = t[2] if d else t[3]
+        elif t[0] in ("EFF", "OPAQUE", "ASSERT"):
+            effs.append(t)
+            t = t[2]
+        else:
+            return effs, t
+
+
+def _decider(table):
+    def decide(test):
+        u = _u(test)
+        if u in table:
+            return table[u]
+        return _integer_time(test)
+    return decide
+
+
+def _ret_call(leaf, callee, what):
+    _need(leaf[0] == "RET" and isinstance(leaf[1], ast.Call) and _u(leaf[1].func) == callee,
+          "%s: expected return %s(...)" % (what, callee), leaf[1] if len(leaf) > 1 and leaf[1] is not None else None)
+    return leaf[1]
+
+
+def _kw(call):
+    return {k.arg: k.value for k in call.keywords}
+
+
 def fh_exprs(repo, out):
+    from . import canon_c11 as C
     with open(os.path.join(repo, "sktime/forecasting/base/_fh.py")) as f:
         mod = ast.parse(f.read())
     cls = find(mod, "ForecastingHorizon")
-    # to_indexer(cutoff, from_cutoff=True): self.to_relative(cutoff).to_pandas() - 1
+    # to_indexer(cutoff, from_cutoff=True) = self.to_relative(cutoff).to_pandas() <op> k
     fn = find(cls, "to_indexer")
     _need(argnames(fn) == ["self", "cutoff", "from_cutoff"] and [_u(d) for d in fn.args.defaults] == ["None", "True"],
           "to_indexer signature / defaults")
-    b = body_of(fn)
-    _need(len(b) == 1 and isinstance(b[0], ast.If) and _u(b[0].test) == "from_cutoff" and len(b[0].body) == 1
-          and isinstance(b[0].body[0], ast.Return), "to_indexer: if from_cutoff: return ...", b[0])
-    r = b[0].body[0].value
+    _, leaf = select(C.of(fn), _decider({"from_cutoff": True}), "to_indexer")
+    r = leaf[1] if leaf[0] == "RET" else None
     _need(isinstance(r, ast.BinOp) and _u(r.left) == "self.to_relative(cutoff).to_pandas()",
           "to_indexer returns <relative steps> <op> k", r)
     out.append("Definition gen_fh_indexer (r : Z) : Z := %s.\n"
                % _int_expr(ast.BinOp(ast.Name("r"), r.op, r.right), {"r": "r"}))
-    # to_absolute: absolute = cutoff + relative (relative = self.to_pandas()), for a relative horizon
+    # to_absolute on a relative horizon / integer cutoff: self._new(cutoff + self.to_pandas(), is_relative=False)
     fn = find(cls, "to_absolute")
-    b = body_of(fn)
-    _need(len(b) == 1 and isinstance(b[0], ast.If) and _u(b[0].test) == "not self.is_relative"
-          and _u(b[0].body[0]) == "return self._new()", "to_absolute: identity on an absolute horizon", b[0])
-    _need(_u(_assign_to(fn, "relative")) == "self.to_pandas()", "to_absolute: relative = self.to_pandas()")
-    ab = _unique(fn, lambda n: isinstance(n, ast.Assign) and _u(n.targets[0]) == "absolute"
-                 and isinstance(n.value, ast.BinOp), "absolute = cutoff + relative").value
+    _need(argnames(fn) == ["self", "cutoff"], "to_absolute signature")
+    _, leaf = select(C.of(fn), _decider({"self.is_relative": True}), "to_absolute")
+    c = _ret_call(leaf, "self._new", "to_absolute")
+    _need(len(c.args) == 1 and {k: _u(v) for k, v in _kw(c).items()} == {"is_relative": "False"},
+          "to_absolute returns self._new(<absolute>, is_relative=False)", c)
     out.append("Definition gen_fh_abs (cutoff r : Z) : Z := %s.\n"
-               % _int_expr(ab, {"cutoff": "cutoff", "relative": "r"}))
-    _need(_u(b[0].orelse[-1]) == "return self._new(absolute, is_relative=False)", "to_absolute return")
-    # to_relative: relative = absolute - cutoff, identity on a relative horizon
+               % _int_expr(c.args[0], {"cutoff": "cutoff", "self.to_pandas()": "r"}))
+    _, leaf = select(C.of(fn), _decider({"self.is_relative": False}), "to_absolute")
+    _need(leaf[0] == "RET" and _u(leaf[1]) == "self._new()", "to_absolute is the identity on an absolute horizon")
+    # to_relative on an absolute horizon / integer cutoff: self._new(self.to_pandas() - cutoff, is_relative=True)
     fn = find(cls, "to_relative")
-    b = body_of(fn)
-    _need(len(b) == 1 and isinstance(b[0], ast.If) and _u(b[0].test) == "self.is_relative"
-          and _u(b[0].body[0]) == "return self._new()", "to_relative: identity on a relative horizon", b[0])
-    _unique(fn, lambda n: isinstance(n, ast.Assign) and _u(n) == "absolute = self.to_pandas()",
-            "to_relative: absolute = self.to_pandas()")
-    rel = _unique(fn, lambda n: isinstance(n, ast.Assign) and _u(n.targets[0]) == "relative"
-                  and isinstance(n.value, ast.BinOp), "relative = absolute - cutoff").value
+    _, leaf = select(C.of(fn), _decider({"self.is_relative": False}), "to_relative")
+    c = _ret_call(leaf, "self._new", "to_relative")
+    _need(len(c.args) == 1 and {k: _u(v) for k, v in _kw(c).items()} == {"is_relative": "True"},
+          "to_relative returns self._new(<relative>, is_relative=True)", c)
     out.append("Definition gen_fh_rel (cutoff t : Z) : Z := %s.\n"
-               % _int_expr(rel, {"cutoff": "cutoff", "absolute": "t"}))
-    _need(_u(b[0].orelse[-1]) == "return self._new(relative, is_relative=True)", "to_relative return")
-    # to_absolute_int(start, cutoff): integers = absolute - start
+               % _int_expr(c.args[0], {"cutoff": "cutoff", "self.to_pandas()": "t"}))
+    _, leaf = select(C.of(fn), _decider({"self.is_relative": True}), "to_relative")
+    _need(leaf[0] == "RET" and _u(leaf[1]) == "self._new()", "to_relative is the identity on a relative horizon")
+    # to_absolute_int(start, cutoff) = self._new(self.to_absolute(cutoff).to_pandas() - start, is_relative=False)
     fn = find(cls, "to_absolute_int")
     _need(argnames(fn) == ["self", "start", "cutoff"], "to_absolute_int signature")
-    _need(_u(_assign_to(fn, "absolute")) == "self.to_absolute(cutoff).to_pandas()",
-          "to_absolute_int: absolute = self.to_absolute(cutoff).to_pandas()")
-    integers = _unique(fn, lambda n: isinstance(n, ast.Assign) and _u(n.targets[0]) == "integers"
-                       and isinstance(n.value, ast.BinOp), "integers = absolute - start").value
+    _, leaf = select(C.of(fn), _decider({}), "to_absolute_int")
+    c = _ret_call(leaf, "self._new", "to_absolute_int")
+    _need(len(c.args) == 1 and {k: _u(v) for k, v in _kw(c).items()} == {"is_relative": "False"},
+          "to_absolute_int returns self._new(<integers>, is_relative=False)", c)
     out.append("Definition gen_fh_abs_int (start t : Z) : Z := %s.\n"
-               % _int_expr(integers, {"start": "start", "absolute": "t"}))
-    _need(_u(body_of(fn)[-1]) == "return self._new(integers, is_relative=False)", "to_absolute_int return")
+               % _int_expr(c.args[0], {"start": "start", "self.to_absolute(cutoff).to_pandas()": "t"}))
 
 
 def window_exprs(repo, out):
+    from . import canon_c11 as C
     with open(os.path.join(repo, "sktime/forecasting/base/_sktime.py")) as f:
         mod = ast.parse(f.read())
     cls = find(mod, "_BaseWindowForecaster")
     # _predict_nan(fh) = np.full(len(fh), np.nan)
     fn = find(cls, "_predict_nan")
-    b = body_of(fn)
-    _need(argnames(fn) == ["fh"] and len(b) == 1 and _u(b[0]) == "return np.full(len(fh), np.nan)",
+    _need(argnames(fn) == ["fh"] and C.show(C.of(fn)) == "RET(np.full(len(fh), np.nan))",
           "_predict_nan(fh) = np.full(len(fh), np.nan)")
     out.append("Definition gen_predict_nan (k : Z) : list oq := np_full_nan k.\n")
     # _predict: all out-of-sample -> one call at the cutoff; all in-sample -> moving cutoffs; else both
     fn = find(cls, "_predict")
-    b = body_of(fn)
-    _need(len(b) >= 2 and isinstance(b[-1], ast.If), "_predict ends with the in-/out-of-sample dispatch")
-    d = b[-1]
-    _need(_u(d.test) == "fh.is_all_out_of_sample(self.cutoff)" and len(d.body) == 1
-          and _u(d.body[0]) == "return self._predict_fixed_cutoff(fh.to_out_of_sample(self.cutoff), **kwargs)",
-          "_predict: out-of-sample horizons are served by _predict_fixed_cutoff", d)
-    _need(len(d.orelse) == 1 and isinstance(d.orelse[0], ast.If)
-          and _u(d.orelse[0].test) == "fh.is_all_in_sample(self.cutoff)"
-          and _u(d.orelse[0].body[0]) == "return self._predict_in_sample(fh.to_in_sample(self.cutoff), **kwargs)",
-          "_predict: in-sample horizons are served by _predict_in_sample", d)
-    mixed = [_u(s) for s in d.orelse[0].orelse]
-    _need(mixed == ["y_ins = self._predict_in_sample(fh.to_in_sample(self.cutoff), **kwargs)",
-                    "y_oos = self._predict_fixed_cutoff(fh.to_out_of_sample(self.cutoff), **kwargs)",
-                    "return y_ins.append(y_oos)"], "_predict: mixed horizons = in-sample ++ out-of-sample")
-    # _predict_fixed_cutoff: one _predict_last_window call
-    fn = find(cls, "_predict_fixed_cutoff")
-    _need(_u(_assign_to(fn, "y_pred")).replace("\n", "").replace(" ", "")
-          == "self._predict_last_window(fh,X,return_pred_int=return_pred_int,alpha=alpha)",
-          "_predict_fixed_cutoff calls _predict_last_window(fh, ...)")
-    # _predict_in_sample: cutoffs = fh.to_relative(self.cutoff) + len(y_train) - 2, fh=1, window_length_
-    fn = find(cls, "_predict_in_sample")
-    _need(_u(_assign_to(fn, "y_train")) == "self._y", "_predict_in_sample: y_train = self._y")
-    c = _assign_to(fn, "cutoffs")
-    rel = ast.parse("fh.to_relative(self.cutoff)").body[0].value
-    _need(isinstance(c, ast.BinOp), "cutoffs expression", c)
-    env = {"fh.to_relative(self.cutoff)": "r", "y_train": "n"}
+    _need(argnames(fn)[:2] == ["self", "fh"], "_predict signature")
+    t = C.of(fn)
+    OOS, INS = "fh.is_all_out_of_sample(self.cutoff)", "fh.is_all_in_sample(self.cutoff)"
 
-    def cut(e):
-        if _u(e) == _u(rel):
+    def fixed(c):
+        return (isinstance(c, ast.Call) and _u(c.func) == "self._predict_fixed_cutoff" and len(c.args) == 1
+                and _u(c.args[0]) == "fh.to_out_of_sample(self.cutoff)")
+
+    def insample(c):
+        return (isinstance(c, ast.Call) and _u(c.func) == "self._predict_in_sample" and len(c.args) == 1
+                and _u(c.args[0]) == "fh.to_in_sample(self.cutoff)")
+    base = {"return_pred_int": False}
+    e1, l1 = select(t, _decider(dict(base, **{OOS: True, INS: False})), "_predict")
+    e2, l2 = select(t, _decider(dict(base, **{OOS: False, INS: True})), "_predict")
+    e3, l3 = select(t, _decider(dict(base, **{OOS: False, INS: False})), "_predict")
+    _need(not (e1 or e2 or e3), "_predict: effects before the dispatch")
+    _need(l1[0] == "RET" and fixed(l1[1]), "_predict: out-of-sample horizons are served by _predict_fixed_cutoff")
+    _need(l2[0] == "RET" and insample(l2[1]), "_predict: in-sample horizons are served by _predict_in_sample")
+    m = l3[1] if l3[0] == "RET" else None
+    _need(isinstance(m, ast.Call) and isinstance(m.func, ast.Attribute) and m.func.attr == "append"
+          and insample(m.func.value) and len(m.args) == 1 and fixed(m.args[0]) and not m.keywords,
+          "_predict: mixed horizons = in-sample .append( out-of-sample )")
+    # _predict_fixed_cutoff: one _predict_last_window call, labelled (index site: C03/Site.v)
+    fn = find(cls, "_predict_fixed_cutoff")
+    _, leaf = select(C.of(fn), _decider({}), "_predict_fixed_cutoff")
+    c = _ret_call(leaf, "pd.Series", "_predict_fixed_cutoff")
+    _need(len(c.args) == 1 and isinstance(c.args[0], ast.Call) and _u(c.args[0].func) == "self._predict_last_window"
+          and c.args[0].args and _u(c.args[0].args[0]) == "fh", "_predict_fixed_cutoff calls _predict_last_window(fh, ...)")
+    # _predict_in_sample: _predict_moving_cutoff(self._y, CutoffSplitter(<cutoffs>, fh=k, window_length=
+    # self.window_length_), ..., update_params=False)
+    fn = find(cls, "_predict_in_sample")
+    _, leaf = select(C.of(fn), _decider({}), "_predict_in_sample")
+    c = _ret_call(leaf, "self._predict_moving_cutoff", "_predict_in_sample")
+    args = {**{i: a for i, a in enumerate(c.args)}, **_kw(c)}
+    y_arg, cv = args.get(0, args.get("y")), args.get(1, args.get("cv"))
+    _need(y_arg is not None and _u(y_arg) == "self._y" and _u(args.get("update_params", ast.Constant(None))) == "False",
+          "_predict_in_sample: _predict_moving_cutoff(self._y, cv, ..., update_params=False)", c)
+    _need(isinstance(cv, ast.Call) and _u(cv.func) == "CutoffSplitter", "cv = CutoffSplitter(...)", cv)
+    cva = {**{i: a for i, a in enumerate(cv.args)}, **_kw(cv)}
+    cut, step, wl = cva.get(0, cva.get("cutoffs")), cva.get(1, cva.get("fh")), cva.get(2, cva.get("window_length"))
+    _need(cut is not None and step is not None and wl is not None and _u(wl) == "self.window_length_",
+          "CutoffSplitter(cutoffs, fh=k, window_length=self.window_length_)", cv)
+    rel = "fh.to_relative(self.cutoff)"
+
+    def cutx(e):
+        if _u(e) == rel:
             return "r"
         if isinstance(e, ast.BinOp) and type(e.op) in (ast.Add, ast.Sub):
-            return "(%s %s %s)" % (cut(e.left), "+" if isinstance(e.op, ast.Add) else "-", cut(e.right))
-        return _int_expr(e, env)
-    out.append("(* position of the moved cutoff for the in-sample step r, n = len(y_train) *)\n"
-               "Definition gen_insample_cutoff (r n : Z) : Z := %s.\n" % cut(c))
-    cv = _assign_to(fn, "cv")
-    _need(isinstance(cv, ast.Call) and _u(cv.func) == "CutoffSplitter" and len(cv.args) == 1
-          and _u(cv.args[0]) == "cutoffs" and {k.arg: _u(k.value) for k in cv.keywords}
-          == {"fh": "1", "window_length": "self.window_length_"},
-          "cv = CutoffSplitter(cutoffs, fh=1, window_length=self.window_length_)", cv)
-    out.append("Definition gen_insample_step : Z := %s.\n" % _u([k.value for k in cv.keywords if k.arg == "fh"][0]))
-    r = [n for n in ast.walk(fn) if isinstance(n, ast.Return)]
-    _need(len(r) == 1 and isinstance(r[0].value, ast.Call) and _u(r[0].value.func) == "self._predict_moving_cutoff"
-          and [_u(a) for a in r[0].value.args[:2]] == ["y_train", "cv"]
-          and {k.arg: _u(k.value) for k in r[0].value.keywords}.get("update_params") == "False",
-          "_predict_in_sample returns _predict_moving_cutoff(y_train, cv, ..., update_params=False)")
-    # _get_last_window: self._y.loc[cutoff - window_length_ + 1 : cutoff] by label
+            return "(%s %s %s)" % (cutx(e.left), "+" if isinstance(e.op, ast.Add) else "-", cutx(e.right))
+        if isinstance(e, ast.Call) and _u(e.func) == "len" and len(e.args) == 1 and _u(e.args[0]) == "self._y":
+            return "n"
+        return _int_expr(e, {})
+    out.append("(* position of the moved cutoff for the in-sample step r, n = len(self._y) *)\n"
+               "Definition gen_insample_cutoff (r n : Z) : Z := %s.\n" % cutx(cut))
+    out.append("Definition gen_insample_step : Z := %s.\n" % _int_expr(step, {}))
+    # _get_last_window: self._y.loc[_shift(self.cutoff, by=<e>) : self.cutoff] by label
     fn = find(cls, "_get_last_window")
-    _need(_u(_assign_to(fn, "cutoff")) == "self.cutoff", "_get_last_window: cutoff = self.cutoff")
-    st = _assign_to(fn, "start")
-    _need(isinstance(st, ast.Call) and _u(st.func) == "_shift" and len(st.args) == 1 and _u(st.args[0]) == "cutoff"
-          and len(st.keywords) == 1 and st.keywords[0].arg == "by", "start = _shift(cutoff, by=...)", st)
-    y = _assign_to(fn, "y")
-    _need(_u(y) == "self._y.loc[start:cutoff].to_numpy()", "y = self._y.loc[start:cutoff].to_numpy()", y)
+    _need(argnames(fn) == ["self"], "_get_last_window signature")
+    starts = set()
+    for decide_x in (True, False):
+        _, leaf = select(C.of(fn), _decider({"self._X is not None": decide_x}), "_get_last_window")
+        _need(leaf[0] == "RET" and isinstance(leaf[1], ast.Tuple) and len(leaf[1].elts) == 2, "_get_last_window returns (y, X)")
+        y = leaf[1].elts[0]
+        _need(isinstance(y, ast.Call) and isinstance(y.func, ast.Attribute) and y.func.attr == "to_numpy"
+              and isinstance(y.func.value, ast.Subscript) and _u(y.func.value.value) == "self._y.loc"
+              and isinstance(y.func.value.slice, ast.Slice) and y.func.value.slice.step is None
+              and y.func.value.slice.upper is not None and _u(y.func.value.slice.upper) == "self.cutoff",
+              "y = self._y.loc[<start>:self.cutoff].to_numpy()", y)
+        st = y.func.value.slice.lower
+        _need(isinstance(st, ast.Call) and _u(st.func) == "_shift" and len(st.args) == 1 and _u(st.args[0]) == "self.cutoff"
+              and list(_kw(st)) == ["by"], "start = _shift(self.cutoff, by=...)", st)
+        starts.add(_int_expr(_kw(st)["by"], {"self.window_length_": "wl"}))
+    _need(len(starts) == 1, "_get_last_window: different windows with / without X")
     out.append("(* first label of the last window (the last one is the cutoff c); _shift(x, by) = x + by *)\n"
-               "Definition gen_window_start (c wl : Z) : Z := (c + %s).\n"
-               % _int_expr(st.keywords[0].value, {"self.window_length_": "wl"}))
+               "Definition gen_window_start (c wl : Z) : Z := (c + %s).\n" % starts.pop())
     with open(os.path.join(repo, "sktime/utils/datetime.py")) as f:
         sh = find(ast.parse(f.read()), "_shift")
-    _need(argnames(sh) == ["x", "by"] and _u(body_of(sh)[-1]) == "return x + by", "_shift(x, by) ends with return x + by")
+    _need(argnames(sh) == ["x", "by"], "_shift signature")
+    _, leaf = select(C.of(sh), _decider({}), "_shift")
+    _need(leaf[0] == "RET" and _u(leaf[1]) in ("x + by", "by + x"), "_shift(x, by) = x + by on an integer")
 
 
 # ------------------------------------------------------------------------------------------------
@@ -678,6 +963,7 @@ def window_exprs(repo, out):
 
 
 def poly(repo, out):
+    from . import canon_c11 as C
     with open(os.path.join(repo, "sktime/forecasting/trend.py")) as f:
         mod = ast.parse(f.read())
     cls = find(mod, "PolynomialTrendForecaster")
@@ -687,86 +973,101 @@ def poly(repo, out):
     inits = [_u(s) for s in body_of(init)]
     for a in ("regressor", "degree", "with_intercept"):
         _need("self.%s = %s" % (a, a) in inits, "__init__ stores %s verbatim" % a)
+    # fit with the default regressor and no exogenous data: the effects, in order
     fn = find(cls, "fit")
-    b = body_of(fn)
-    want = ["if X is not None:\n    raise NotImplementedError('Support for exogenous variables is not yet implemented')",
-            "self._set_y_X(y, X)", "self._set_fh(fh)"]
-    _need([_u(s) for s in b[:3]] == want, "PolynomialTrendForecaster.fit: first three statements")
-    _need(len(b) == 10, "PolynomialTrendForecaster.fit has %d statements, expected 10" % len(b))
-    r = b[3]
-    _need(isinstance(r, ast.If) and _u(r.test) == "self.regressor is None" and len(r.body) == 1 and len(r.orelse) == 1
-          and _u(r.orelse[0]) == "regressor = self.regressor", "default regressor selection", r)
-    lr = r.body[0]
-    _need(isinstance(lr, ast.Assign) and _u(lr.targets[0]) == "regressor" and isinstance(lr.value, ast.Call)
-          and _u(lr.value.func) == "LinearRegression" and not lr.value.args
-          and [k.arg for k in lr.value.keywords] == ["fit_intercept"]
-          and isinstance(lr.value.keywords[0].value, ast.Constant)
-          and isinstance(lr.value.keywords[0].value.value, bool), "regressor = LinearRegression(fit_intercept=<bool>)", lr)
-    out.append("Definition gen_poly_fit_intercept : bool := %s.\n"
-               % ("true" if lr.value.keywords[0].value.value else "false"))
-    p = b[4]
+    _need(argnames(fn) == ["self", "y", "X", "fh"], "PolynomialTrendForecaster.fit signature")
+    effs, leaf = select(C.of(fn), _decider({"X is not None": False, "X is None": True, "self.regressor is None": True,
+                                            "self.regressor is not None": False}), "PolynomialTrendForecaster.fit")
+    _need(leaf[0] == "RET" and _u(leaf[1]) == "self", "fit returns self")
+    _need(all(e[0] == "EFF" for e in effs), "fit: loop / assert in the body")
+    st = [e[1] for e in effs]
+    texts = [" ".join(_u(x).split()) for x in st]
+    _need(texts[:2] == ["self._set_y_X(y, X)", "self._set_fh(fh)"] and texts[-1] == "self._is_fitted = True"
+          and len(st) == 5, "fit: _set_y_X; _set_fh; regressor_ = ...; regressor_.fit(...); _is_fitted = True (got %s)" % texts)
+    p, fitcall = st[2], st[3]
     _need(isinstance(p, ast.Assign) and _u(p.targets[0]) == "self.regressor_" and isinstance(p.value, ast.Call)
-          and _u(p.value.func) == "make_pipeline" and len(p.value.args) == 2 and not p.value.keywords
-          and _u(p.value.args[1]) == "regressor", "self.regressor_ = make_pipeline(PolynomialFeatures(...), regressor)", p)
-    pf = p.value.args[0]
+          and _u(p.value.func) == "make_pipeline" and len(p.value.args) == 2 and not p.value.keywords,
+          "self.regressor_ = make_pipeline(<features>, <regressor>)", p)
+    pf, lr = p.value.args
+    _need(isinstance(lr, ast.Call) and _u(lr.func) == "LinearRegression" and not lr.args
+          and list(_kw(lr)) == ["fit_intercept"] and isinstance(_kw(lr)["fit_intercept"], ast.Constant)
+          and isinstance(_kw(lr)["fit_intercept"].value, bool), "default regressor LinearRegression(fit_intercept=<bool>)", lr)
+    out.append("Definition gen_poly_fit_intercept : bool := %s.\n"
+               % ("true" if _kw(lr)["fit_intercept"].value else "false"))
     _need(isinstance(pf, ast.Call) and _u(pf.func) == "PolynomialFeatures" and not pf.args
-          and sorted(k.arg for k in pf.keywords) == ["degree", "include_bias"], "PolynomialFeatures(degree=, include_bias=)", pf)
-    kw = {k.arg: k.value for k in pf.keywords}
+          and sorted(_kw(pf)) == ["degree", "include_bias"], "PolynomialFeatures(degree=, include_bias=)", pf)
     ev = Ev()
-    d = ev.expr(kw["degree"], {"self.degree": Z("degree")})
+    d = ev.expr(_kw(pf)["degree"], {"self.degree": Z("degree")})
     _need(d.kind == "Z", "degree expression")
     out.append("Definition gen_poly_degree (degree : Z) : Z := %s.\n" % d.coq)
-    ib = ev.expr(kw["include_bias"], {"self.with_intercept": B(coq="with_intercept")})
+    ib = ev.expr(_kw(pf)["include_bias"], {"self.with_intercept": B(coq="with_intercept")})
     _need(ib.kind == "B", "include_bias expression")
     out.append("Definition gen_poly_include_bias (with_intercept : bool) : bool := %s.\n" % ib.coq)
-    nt = b[5]
-    _need(isinstance(nt, ast.Assign) and _u(nt.targets[0]) == "n_timepoints" and isinstance(nt.value, ast.BinOp)
-          and _u(nt.value.left) == "_get_duration(self._y.index, coerce_to_int=True)", "n_timepoints = _get_duration(index) + k", nt)
-    out.append("(* first / last = self._y.index[0] / [-1]; _get_duration(index) = last - first on integers *)\n"
-               "Definition gen_poly_n_timepoints (first last_ : Z) : Z := %s.\n"
-               % _int_expr(ast.BinOp(ast.Name("dur"), nt.value.op, nt.value.right), {"dur": "(last_ - first)"}))
-    x = b[6]
-    _need(isinstance(x, ast.Assign) and _u(x.targets[0]) == "X" and _u(x.value).startswith("np.arange(")
-          and _u(x.value).endswith(".reshape(-1, 1)"), "X = np.arange(...).reshape(-1, 1)", x)
-    ar = x.value.func.value
-    _need(isinstance(ar, ast.Call) and _u(ar.func) == "np.arange" and not ar.keywords and 1 <= len(ar.args) <= 2,
-          "np.arange(stop) / np.arange(start, stop)", ar)
-    lo = "0" if len(ar.args) == 1 else _int_expr(ar.args[0], {"n_timepoints": "n"})
-    hi = _int_expr(ar.args[-1], {"n_timepoints": "n"})
-    out.append("Definition gen_poly_time_axis (n : Z) : list Z := zrange %s %s 1.\n" % (lo, hi))
-    _need(_u(b[7]) == "self.regressor_.fit(X, y)" and _u(b[8]) == "self._is_fitted = True"
-          and _u(b[9]) == "return self", "fit: regressor_.fit(X, y); _is_fitted = True; return self")
+    # the user's regressor, when given, replaces only the second pipeline step
+    effs2, _ = select(C.of(fn), _decider({"X is not None": False, "X is None": True, "self.regressor is None": False,
+                                          "self.regressor is not None": True}), "PolynomialTrendForecaster.fit")
+    p2 = effs2[2][1]
+    _need(isinstance(p2, ast.Assign) and isinstance(p2.value, ast.Call) and len(p2.value.args) == 2
+          and _u(p2.value.args[0]) == _u(pf) and _u(p2.value.args[1]) == "self.regressor",
+          "with a user regressor: make_pipeline(<same features>, self.regressor)")
+    # regressor_.fit(np.arange(<n_timepoints>).reshape(-1, 1), y)
+    fc = fitcall.value if isinstance(fitcall, ast.Expr) else None
+    _need(isinstance(fc, ast.Call) and _u(fc.func) == "self.regressor_.fit" and len(fc.args) == 2 and not fc.keywords
+          and _u(fc.args[1]) == "y", "self.regressor_.fit(<X>, y)", fitcall)
+    x = fc.args[0]
+    _need(isinstance(x, ast.Call) and isinstance(x.func, ast.Attribute) and x.func.attr == "reshape"
+          and [_u(a) for a in x.args] == ["-1", "1"] and isinstance(x.func.value, ast.Call)
+          and _u(x.func.value.func) == "np.arange" and not x.func.value.keywords and 1 <= len(x.func.value.args) <= 2,
+          "X = np.arange(...).reshape(-1, 1)", x)
+    ar = x.func.value
+    DUR = "_get_duration(self._y.index, coerce_to_int=True)"
+
+    def nt(e):
+        if _u(e) == DUR:
+            return "(last_ - first)"
+        if isinstance(e, ast.BinOp) and type(e.op) in (ast.Add, ast.Sub, ast.Mult):
+            return "(%s %s %s)" % (nt(e.left), {ast.Add: "+", ast.Sub: "-", ast.Mult: "*"}[type(e.op)], nt(e.right))
+        return _int_expr(e, {})
+    lo = "0" if len(ar.args) == 1 else nt(ar.args[0])
+    out.append("(* np.arange(lo, hi) of the design matrix; first / last_ = self._y.index[0] / [-1];\n"
+               "   _get_duration(index) = last_ - first on integers *)\n"
+               "Definition gen_poly_time_lo (first last_ : Z) : Z := %s.\n"
+               "Definition gen_poly_time_hi (first last_ : Z) : Z := %s.\n" % (lo, nt(ar.args[-1])))
+    out.append("Definition gen_poly_time_axis (first last_ : Z) : list Z :=\n"
+               "  zrange (gen_poly_time_lo first last_) (gen_poly_time_hi first last_) 1.\n")
     # _get_duration on an integer index: x[-1] - x[0]
     with open(os.path.join(repo, "sktime/utils/datetime.py")) as f:
         gd = find(ast.parse(f.read()), "_get_duration")
-    gb = body_of(gd)
-    _need(argnames(gd)[:2] == ["x", "y"] and _u(gd.args.defaults[0]) == "None" and isinstance(gb[0], ast.If)
-          and _u(gb[0].test) == "y is None" and _u(gb[0].body[-1]) == "duration = x[-1] - x[0]"
-          and _u(gb[-1]) == "return duration", "_get_duration(index): duration = x[-1] - x[0]")
+    _need(argnames(gd)[:2] == ["x", "y"] and _u(gd.args.defaults[0]) == "None", "_get_duration signature")
+    _, leaf = select(C.of(gd), _decider({"y is None": True}), "_get_duration")
+    _need(leaf[0] == "RET" and _u(leaf[1]) == "check_time_index(x)[-1] - check_time_index(x)[0]",
+          "_get_duration(index) = index[-1] - index[0]", leaf[1])
     # _predict
     fn = find(cls, "_predict")
-    b = body_of(fn)
-    _need(len(b) == 5 and isinstance(b[0], ast.If) and _u(b[0].test) == "return_pred_int or X is not None"
-          and _u(b[0].body[0]) == "raise NotImplementedError()", "_predict: guard", b[0])
-    t = b[1]
-    _need(isinstance(t, ast.Assign) and _u(t.targets[0]) == "fh" and isinstance(t.value, ast.Call)
-          and _u(t.value.func) == "self.fh.to_absolute_int" and not t.value.keywords and len(t.value.args) == 2,
-          "fh = self.fh.to_absolute_int(start, cutoff)", t)
-    st, cu = t.value.args
-    _need(isinstance(st, ast.Subscript) and _u(st.value) == "self._y.index" and _u(cu) == "self.cutoff",
-          "to_absolute_int(self._y.index[k], self.cutoff)", t)
+    _need(argnames(fn)[:2] == ["self", "fh"], "PolynomialTrendForecaster._predict signature")
+    effs, leaf = select(C.of(fn), _decider({"return_pred_int or X is not None": False, "return_pred_int": False,
+                                            "X is not None": False}), "PolynomialTrendForecaster._predict")
+    _need(not effs, "_predict: effects")
+    c = _ret_call(leaf, "pd.Series", "PolynomialTrendForecaster._predict")
+    _need(len(c.args) == 1 and {k: _u(v) for k, v in _kw(c).items()} == {"index": "self.fh.to_absolute(self.cutoff)"},
+          "return pd.Series(<y_pred>, index=self.fh.to_absolute(self.cutoff))", c)
+    out.append("Definition gen_poly_index (cutoff r : Z) : Z := gen_fh_abs cutoff r.\n")
+    yp = c.args[0]
+    _need(isinstance(yp, ast.Call) and _u(yp.func) == "self.regressor_.predict" and len(yp.args) == 1 and not yp.keywords,
+          "y_pred = self.regressor_.predict(<X_pred>)", yp)
+    xp = yp.args[0]
+    _need(isinstance(xp, ast.Call) and isinstance(xp.func, ast.Attribute) and xp.func.attr == "reshape"
+          and [_u(a) for a in xp.args] == ["-1", "1"] and isinstance(xp.func.value, ast.Call)
+          and isinstance(xp.func.value.func, ast.Attribute) and xp.func.value.func.attr == "to_numpy"
+          and not xp.func.value.args, "X_pred = <horizon>.to_numpy().reshape(-1, 1)", xp)
+    t = xp.func.value.func.value
+    _need(isinstance(t, ast.Call) and _u(t.func) == "self.fh.to_absolute_int" and not t.keywords and len(t.args) == 2
+          and isinstance(t.args[0], ast.Subscript) and _u(t.args[0].value) == "self._y.index"
+          and _u(t.args[1]) == "self.cutoff", "self.fh.to_absolute_int(self._y.index[k], self.cutoff)", t)
     out.append("(* python position in self._y.index of the time point that becomes 0 on the prediction axis *)\n"
-               "Definition gen_poly_origin_pos : Z := %s.\n" % _int_expr(st.slice, {}))
+               "Definition gen_poly_origin_pos : Z := %s.\n" % _int_expr(t.args[0].slice, {}))
     out.append("(* the value of the time variable for the relative step r *)\n"
                "Definition gen_poly_pred_time (start cutoff r : Z) : Z := gen_fh_abs_int start (gen_fh_abs cutoff r).\n")
-    _need(_u(b[2]) == "X_pred = fh.to_numpy().reshape(-1, 1)" and _u(b[3]) == "y_pred = self.regressor_.predict(X_pred)",
-          "_predict: X_pred, y_pred")
-    ret = b[4]
-    _need(isinstance(ret, ast.Return) and isinstance(ret.value, ast.Call) and _u(ret.value.func) == "pd.Series"
-          and [_u(a) for a in ret.value.args] == ["y_pred"]
-          and {k.arg: _u(k.value) for k in ret.value.keywords} == {"index": "self.fh.to_absolute(self.cutoff)"},
-          "return pd.Series(y_pred, index=self.fh.to_absolute(self.cutoff))", ret)
-    out.append("Definition gen_poly_index (cutoff r : Z) : Z := gen_fh_abs cutoff r.\n")
 
 
 HEADER = """(* GENERATED by translator/naive_c11.py from sktime/forecasting/naive.py, trend.py,
@@ -798,11 +1099,18 @@ def translate(repo):
     cls = find(mod, "NaiveForecaster")
     _need([_u(b) for b in cls.bases] == ["_OptionalForecastingHorizonMixin", "_BaseWindowForecaster"],
           "bases of NaiveForecaster")
-    methods = sorted(n.name for n in cls.body if isinstance(n, ast.FunctionDef))
-    _need(methods == ["__init__", "_predict_last_window", "fit"],
-          "NaiveForecaster defines %s (expected __init__, fit, _predict_last_window only)" % methods)
-    _naive_fit(cls, out)
-    _naive_kernel(cls, out)
+    methods = {n.name for n in cls.body if isinstance(n, (ast.FunctionDef, ast.AsyncFunctionDef))}
+    _need({"__init__", "_predict_last_window", "fit"} <= methods, "NaiveForecaster lacks fit / _predict_last_window")
+    # private helpers may come and go (they are inlined where called); what must NOT be overridden is
+    # the inherited machinery the bridge pins in _sktime.py
+    overridden = methods & INHERITED_MACHINERY
+    _need(not overridden, "NaiveForecaster overrides %s" % sorted(overridden))
+    for n in cls.body:
+        _need(isinstance(n, (ast.FunctionDef, ast.Expr)) or (isinstance(n, ast.Assign) and all(
+            isinstance(t, ast.Name) and t.id not in INHERITED_MACHINERY for t in n.targets)),
+              "unexpected statement in the body of NaiveForecaster", n)
+    _naive_fit(cls, mod, out)
+    _naive_kernel(cls, mod, out)
     poly(repo, out)
     return {"C11/Gen.v": "\n".join(out)}
 
